@@ -179,7 +179,11 @@ func runC15(c *Ctx) {
 			kind = "nested signed token presented to encrypt-only mode"
 			inner = []byte(codec.SignJWS([]byte(`{"alg":"HS256"}`), pl, "HS256", []byte("usersign-usersign-usersign-users")))
 		}
-		forged := codec.EncryptJWEDirA128CBCHS256([]byte(`{"alg":"dir","enc":"A128CBC-HS256","cty":"JWT"}`), inner, []byte(cfg.UserEncKey), c.T.Bytes(16, 2))
+		// (the protected header may or may not announce a nested token: the configured mode
+		// decides what is expected inside, not the token)
+		hdr := []string{`{"alg":"dir","enc":"A128CBC-HS256","cty":"JWT"}`, `{"alg":"dir","enc":"A128CBC-HS256"}`, `{"alg":"dir","enc":"A128CBC-HS256","typ":"JWT"}`}[c.T.Choose(3)]
+		kind += " header " + hdr
+		forged := codec.EncryptJWEDirA128CBCHS256([]byte(hdr), inner, []byte(cfg.UserEncKey), c.T.Bytes(16, 2))
 		r = ask("ti", "GET", "?access_token="+url.QueryEscape(forged))
 		if !signMode {
 			// the plaintext is then a JWS string, not a claims object: must be refused
